@@ -314,8 +314,8 @@ func checkC16(P *Prog, r *Result) {
 	for _, fn := range sortedFuncs(isDeriv) {
 		derivs = append(derivs, fn)
 	}
-	if len(derivs) < 5 {
-		r.broken("vacuous: %d derivation functions found (floor 5: Merge, cloneShallow, Omit, Pick, Extend)", len(derivs))
+	if len(derivs) < 4 {
+		r.broken("vacuous: %d derivation functions found (floor 4: Merge, Omit, Pick, Extend and their clone helper)", len(derivs))
 	}
 	kindStruct := ss.Underlying().(*types.Struct)
 	for _, fn := range derivs {
@@ -411,9 +411,9 @@ func checkC16(P *Prog, r *Result) {
 			r.ok("C16/operands-read-only", fname(fn), P.pos(fn.Pos()), fmt.Sprintf("%d map write(s)/operand store(s), all to maps made in this call", nW))
 		}
 	}
-	r.floor("C16/no-shared-backing", 8)
-	r.floor("C16/fresh-map", 4)
-	r.floor("C16/operands-read-only", 5)
+	r.floor("C16/no-shared-backing", 4)
+	r.floor("C16/fresh-map", 3)
+	r.floor("C16/operands-read-only", 3)
 
 	// precondition: builder methods append in place (otherwise sharing would be harmless)
 	inPlace := 0
@@ -665,7 +665,7 @@ func (P *Prog) checkMergeOrder(r *Result) {
 	} else {
 		r.bad("C16/operand-order", "Merge#others", P.pos(fn.Pos()), "the additional operands are not folded in order after the first two")
 	}
-	r.floor("C16/operand-order", 4)
+	r.floor("C16/operand-order", 3)
 }
 
 func instrBeforeOrReach(a, b ssa.Instruction) bool {
